@@ -12,17 +12,23 @@ package emap
 //@ func Item.GetExpiry
 //@   pure
 //@   opt uf item_expiry
+// gmap("seen", e): remembered id -> its expiry as 8 big-endian bytes (expiries are non-negative)
+//@ spec func expAt(m map[string][]byte, q bytes) int = be64(m[q], 0)
+// SetMin(t) forgets exactly the ids whose expiry is below t; Add remembers every item with a non-zero
+// expiry under that expiry and never changes an id that is already remembered
 //@ func (*EMap).SetMin
 //@   trusted
 //@   noframe
 //@   modifies gmap("seen", e)[]
-//@   ensures forall q string :: has(gmap("seen", e), q) ==> old(has(gmap("seen", e), q))
+//@   ensures forall q string :: has(gmap("seen", e), q) == (old(has(gmap("seen", e), q)) && old(expAt(gmap("seen", e), q)) >= t)
+//@   ensures forall q string :: has(gmap("seen", e), q) ==> gmap("seen", e)[q] == old(gmap("seen", e)[q])
 //@ func (*EMap).Add
 //@   trusted
 //@   noframe
 //@   modifies gmap("seen", e)[]
-//@   ensures forall q string :: old(has(gmap("seen", e), q)) ==> has(gmap("seen", e), q)
+//@   ensures forall q string :: old(has(gmap("seen", e), q)) ==> has(gmap("seen", e), q) && gmap("seen", e)[q] == old(gmap("seen", e)[q])
 //@   ensures forall j int :: 0 <= j && j < len(items) && Item.GetExpiry(items[j]) != 0 ==> has(gmap("seen", e), str(Item.GetID(items[j])))
+//@   ensures forall q string :: has(gmap("seen", e), q) && !old(has(gmap("seen", e), q)) ==> exists j int :: 0 <= j && j < len(items) && q == str(Item.GetID(items[j]))
 //@ func (*EMap).Contains
 //@   trusted
 //@   noframe
